@@ -476,3 +476,110 @@ pub fn run_c03(o: &Opts) {
   );
   let _ = dump::pnode_size;
 }
+
+/// C04 (coherence): does_node_match_exactly, observed through MetaVarEnv::insert of the same name twice,
+/// on pairs of nodes of one document: same kind, preferring pairs whose child-kind sequences are equal or
+/// one a strict prefix of the other (the near misses of a structural comparison), plus named leaves
+/// against inner nodes with the same text.
+pub fn run_c04x(o: &Opts) {
+  use ast_grep_core::meta_var::MetaVarEnv;
+  let mut out = Out::new(&o.out);
+  let mut rng = Rng::new(o.seed ^ 0xc04e);
+  let nsrc = if o.thorough { 8 } else { 3 };
+  let mut sampled = false;
+  for lang in SupportLang::all_langs().iter().copied() {
+    let mut srcs = corpus::sources(lang, &mut rng, nsrc, 1500);
+    if let Some(s0) = srcs.first().cloned() {
+      srcs.push(corpus::mutate(&s0, &mut rng));
+    }
+    for src in &srcs {
+      let sg = corpus::parse(lang, src);
+      let root = sg.root();
+      let nodes = corpus::all_nodes(root.clone());
+      if nodes.len() < 4 || nodes.len() > 1200 {
+        continue;
+      }
+      let td = dump::dump_tree_at(&root, 0);
+      let sig = |n: &N| -> Vec<u16> { n.children().map(|c| c.kind_id()).collect() };
+      let mut by_kind: HashMap<u16, Vec<usize>> = HashMap::new();
+      for (i, n) in nodes.iter().enumerate() {
+        by_kind.entry(n.kind_id()).or_default().push(i);
+      }
+      let mut pairs: Vec<(usize, usize)> = vec![];
+      for ix in by_kind.values() {
+        if ix.len() < 2 {
+          continue;
+        }
+        let sigs: Vec<Vec<u16>> = ix.iter().map(|i| sig(&nodes[*i])).collect();
+        let mut near = vec![];
+        for a in 0..ix.len().min(40) {
+          for b in 0..ix.len().min(40) {
+            if a != b && sigs[a].len() <= sigs[b].len() && sigs[b][..sigs[a].len()] == sigs[a][..] {
+              near.push((ix[a], ix[b]));
+            }
+          }
+        }
+        rng.shuffle(&mut near);
+        for p in near.into_iter().take(12) {
+          pairs.push(p);
+          if rng.chance(1, 2) {
+            pairs.push((p.1, p.0));
+          }
+        }
+        for _ in 0..3 {
+          pairs.push((*rng.pick(ix), *rng.pick(ix)));
+        }
+      }
+      // same text, different node (a leaf against the inner node that wraps it)
+      for (i, n) in nodes.iter().enumerate() {
+        if let Some(p) = n.parent() {
+          if p.range() == n.range() {
+            if let Some(j) = nodes.iter().position(|m| m.node_id() == p.node_id()) {
+              pairs.push((i, j));
+              pairs.push((j, i));
+            }
+          }
+        }
+      }
+      pairs.truncate(if o.thorough { 4000 } else { 600 });
+      let mut expected = vec![];
+      let mut wire_pairs = vec![];
+      for (a, b) in &pairs {
+        let (x, y) = (nodes[*a].clone(), nodes[*b].clone());
+        let r = catch_unwind(AssertUnwindSafe(|| {
+          let mut env = MetaVarEnv::new();
+          env.insert("A", x.clone()).is_some() && env.insert("A", y.clone()).is_some()
+        }));
+        out.checked();
+        match r {
+          Ok(b2) => {
+            expected.push(Val::b(b2));
+            out.count(if b2 { "identical" } else { "different" });
+            if b2 && x.node_id() != y.node_id() {
+              out.nontrivial(&(lang.to_string(), src.len(), x.range().start, y.range().start));
+              // direct oracle: structurally identical nodes of the same kind have the same shape
+              let shape_ok = x.is_named_leaf() || y.is_named_leaf() || (x.kind_id() == y.kind_id() && x.children().count() == y.children().count());
+              if !shape_ok {
+                out.oracle_fail("", &format!("{lang}: a variable bound to {:?} is re-bound to {:?}: same kind but a different number of children", x.text(), y.text()),
+                  json!({"stream": "c04x", "lang": lang.to_string(), "first": x.text(), "second": y.text()}));
+              }
+              if !sampled {
+                sampled = true;
+                out.sample(json!({"lang": lang.to_string(), "first": x.text(), "second": y.text(), "identical": true}));
+              }
+            }
+          }
+          Err(_) => expected.push(Val::err("panic")),
+        }
+        wire_pairs.push(vl![Val::n(td.ids[&x.node_id()]), Val::n(td.ids[&y.node_id()])]);
+      }
+      if pairs.is_empty() {
+        continue;
+      }
+      let input = vl![Val::str_bytes(src), td.val.clone(), Val::L(wire_pairs)];
+      out.case(12, &input, &Val::L(expected), &format!("c04x lang={lang} pairs={} source={}", pairs.len(), serde_json::to_string(&src[..src.len().min(300)]).unwrap()));
+    }
+  }
+  out.finish("pairs of nodes of one real tree (same kind with equal or prefix-related child-kind sequences, random same-kind pairs, a node against the parent with the same range), all 23 languages: \
+              binding one variable name to the first and then to the second node through MetaVarEnv::insert succeeds iff the model's does_node_match_exactly says so; non-trivial = two different nodes are accepted as identical");
+}
